@@ -1,5 +1,5 @@
 \* repaired; one stream, the whole catalogue, duplicates, three heights
-CONSTANTS Streams <- {1} Choices <- ChOne BadBatches <- MCBad InitHeight = 1 MaxHeight = 3
+CONSTANTS Streams = {1} Choices <- ChOne BadBatches <- MCBad InitHeight = 1 MaxHeight = 3
   InputCap = 2 OutCap = 1 MaxDup = 2 MaxExtra = 2 MaxGot = 2
   FixNilState = TRUE FixBlock = TRUE FixReFin = TRUE SeqWindow = 8 BufBound = 8 Mut = "none"
 INIT Init
